@@ -429,6 +429,11 @@ class Server(base_server.BaseServer):
 
         if transport == 'websocket':  # pragma: no cover
             ret = s.handle_get_request(environ, start_response)
+            if isinstance(ret, list) and len(ret) > 0:
+                # the request did not carry the headers of a websocket
+                # upgrade, so it was handled as a poll
+                s.close(wait=False, abort=True)
+                ret = self._bad_request('Invalid websocket upgrade')
             if s.closed and sid in self.sockets:
                 # websocket connection ended, so we are done
                 del self.sockets[sid]
